@@ -69,6 +69,10 @@ impl<'tcx> Cx<'tcx> {
         with_no_trimmed_paths!(self.tcx.def_path_str(d))
     }
 
+    fn uid(&self, d: DefId) -> String {
+        format!("{}:{}", self.tcx.crate_name(d.krate), self.tcx.def_path(d).to_string_no_crate_verbose())
+    }
+
     fn span_j(&self, sp: Span) -> J {
         let sm = self.tcx.sess.source_map();
         let lo = sm.lookup_char_pos(sp.lo());
@@ -359,6 +363,7 @@ impl<'tcx> Cx<'tcx> {
                         J::obj()
                             .f("name", J::s(it.name().to_string()))
                             .f("def", J::s(self.dp(it.def_id)))
+                            .f("uid", J::s(self.uid(it.def_id)))
                             .f("is_fn", J::Bool(it.is_fn()))
                             .done(),
                     );
@@ -408,7 +413,7 @@ impl<'tcx> Cx<'tcx> {
     fn export_fn(&mut self, ldid: LocalDefId, kind: DefKind) -> J {
         let tcx = self.tcx;
         let did = ldid.to_def_id();
-        let mut o = J::obj().f("def", J::s(self.dp(did)));
+        let mut o = J::obj().f("def", J::s(self.dp(did))).f("uid", J::s(self.uid(did)));
         let name = tcx.opt_item_name(did).map(|s| s.to_string()).unwrap_or_else(|| "{closure}".into());
         o = o.f("name", J::s(name));
         let kind_s = match kind {
@@ -426,8 +431,8 @@ impl<'tcx> Cx<'tcx> {
         o = o.f("kind", J::s(kind_s));
         if kind == DefKind::Closure {
             let parent = tcx.typeck_root_def_id(did);
-            o = o.f("root", J::s(self.dp(parent)));
-            o = o.f("parent", J::s(self.dp(tcx.parent(did))));
+            o = o.f("root", J::s(self.dp(parent))).f("root_uid", J::s(self.uid(parent)));
+            o = o.f("parent", J::s(self.dp(tcx.parent(did)))).f("parent_uid", J::s(self.uid(tcx.parent(did))));
             let names: Vec<J> = tcx
                 .closure_saved_names_of_captured_variables(did)
                 .iter()
@@ -442,7 +447,7 @@ impl<'tcx> Cx<'tcx> {
                     let self_ty = tcx.type_of(parent).instantiate_identity().skip_norm_wip();
                     let mut io = J::obj().f("self_ty", J::s(ty_s(self_ty))).f("impl_def", J::s(self.dp(parent)));
                     if let ty::Adt(a, _) = self_ty.kind() {
-                        io = io.f("self_adt", J::s(self.dp(a.did())));
+                        io = io.f("self_adt", J::s(self.dp(a.did()))).f("self_adt_uid", J::s(self.uid(a.did())));
                     }
                     if of_trait {
                         let tr = tcx.impl_trait_ref(parent).instantiate_identity().skip_norm_wip();
@@ -698,14 +703,20 @@ impl<'tcx> Cx<'tcx> {
             ty::FnDef(def_id, args) => {
                 let mut o = J::obj()
                     .f("def", J::s(self.dp(*def_id)))
+                    .f("uid", J::s(self.uid(*def_id)))
                     .f("name", J::s(tcx.opt_item_name(*def_id).map(|s| s.to_string()).unwrap_or_default()))
                     .f("crate", J::s(tcx.crate_name(def_id.krate).to_string()))
                     .f("local", J::Bool(def_id.is_local()));
                 let mut av = Vec::new();
+                let mut au = Vec::new();
                 for a in args.iter() {
                     av.push(J::s(with_no_trimmed_paths!(format!("{}", a))));
+                    au.push(match a.as_type().map(|t| t.kind()) {
+                        Some(ty::Adt(ad, _)) => J::s(self.uid(ad.did())),
+                        _ => J::Null,
+                    });
                 }
-                o = o.f("args", J::Arr(av));
+                o = o.f("args", J::Arr(av)).f("args_uid", J::Arr(au));
                 // trait method?
                 if let Some(assoc) = tcx.opt_associated_item(*def_id) {
                     if let Some(tr) = assoc.trait_container(tcx) {
@@ -741,6 +752,7 @@ impl<'tcx> Cx<'tcx> {
                                 };
                                 let mut ro = J::obj()
                                     .f("def", J::s(self.dp(rid)))
+                                    .f("uid", J::s(self.uid(rid)))
                                     .f("kind", J::s(k))
                                     .f("crate", J::s(tcx.crate_name(rid.krate).to_string()))
                                     .f("local", J::Bool(rid.is_local()));
@@ -942,7 +954,7 @@ impl<'tcx> Cx<'tcx> {
                             .f("fields", J::Arr(fnames));
                     }
                     AggregateKind::Closure(d, _) => {
-                        o = o.f("agg", J::s("closure")).f("closure", J::s(self.dp(*d)));
+                        o = o.f("agg", J::s("closure")).f("closure", J::s(self.dp(*d))).f("closure_uid", J::s(self.uid(*d)));
                         let names: Vec<J> = tcx
                             .closure_saved_names_of_captured_variables(*d)
                             .iter()
@@ -951,7 +963,7 @@ impl<'tcx> Cx<'tcx> {
                         o = o.f("fields", J::Arr(names));
                     }
                     AggregateKind::Coroutine(d, _) => {
-                        o = o.f("agg", J::s("coroutine")).f("closure", J::s(self.dp(*d)));
+                        o = o.f("agg", J::s("coroutine")).f("closure", J::s(self.dp(*d))).f("closure_uid", J::s(self.uid(*d)));
                     }
                     AggregateKind::CoroutineClosure(d, _) => {
                         o = o.f("agg", J::s("coroutine_closure")).f("closure", J::s(self.dp(*d)));
